@@ -25,9 +25,9 @@ META["C13"] = dict(
 )
 
 META["C18"] = dict(
-    level_text="Theorems (Lean): the bit-level NodeMarks model refines a set of naturals under every Mark/Unmark/Test/Next history; DotString round-trips through unescape; the SCC checker holdsSCC is sound w.r.t. path-defined mutual reachability; structural facts of the DFS/subgraph/transpose models. Correspondence: every traversal, SCC, SimplifyMulti, subgraph, transpose, Equal and Dot result of the real code is compared exactly with the model (SCC through the checker plus partition equality with the definitional partition) on exhaustive small digraphs, random multigraphs and structured graphs up to 100000 nodes.",
-    level_note="Trusted: Lean kernel; harness generators (sampling). Tarjan's algorithm itself has no Lean mirror: its outputs are validated per input by the proved-sound checker. Go map iteration and sort are not modelled.",
-    technique="Lean 4 refinement/soundness proofs + exact differential correspondence on exhaustive and random graphs",
+    level_text="Theorems (Lean): the bit-level NodeMarks model refines a set of naturals under every Mark/Unmark/Test/Next history; DotString round-trips through unescape; the SCC checker holdsSCC is sound w.r.t. path-defined mutual reachability; the Tarjan mirror's output satisfies it for every graph (tarjan_holds: components partition the nodes, are exactly the classes of mutual reachability, numbered in reverse topological order); DFS with fuel visits exactly the reachable nodes with nested intervals; structural facts of the subgraph/transpose/simplify models. Correspondence: every traversal, SCC, SimplifyMulti, subgraph, transpose, Equal and Dot result of the real code is compared exactly with the model (SCC through the checker plus partition equality with the definitional partition) on exhaustive small digraphs, random multigraphs and structured graphs up to 100000 nodes.",
+    level_note="Trusted: Lean kernel; harness generators (sampling). Tarjan's algorithm has a Lean mirror (MV.Graph.tarjan) proved correct for every graph (C18Tarjan.tarjan_holds: its output passes the proved-sound SCC checker; S1-S5); the Go output is compared with the mirror and, independently, judged by the checker. Go map iteration and sort are not modelled.",
+    technique="Lean 4 refinement/soundness proofs incl. a proved mirror of Tarjan's algorithm + exact differential correspondence on exhaustive and random graphs",
     rule="ops marks/pre/post/euler/rev/scc/simp/keep/remove/bigraph/equal/dots/dot. Exhaustive: all digraphs with self-loops on <=3 nodes (thorough <=4, plus a 1/8 sample of 5-node loop-free digraphs), every root. Random multigraphs <=60 nodes; paths/cycles/trees/layered DAGs/descending paths up to 20000 (thorough 100000) nodes; marks histories with indices around word and power-of-two boundaries. non-trivial = graph with >=3 nodes (history with >=3 ops; multigraph with a parallel edge for simp); distinct = distinct input line",
     exhaustive_part="all digraphs with self-loops on <=3 (thorough <=4) nodes, every root, for pre/post/scc",
     trusted_base=COMMON_TB,
@@ -36,9 +36,9 @@ META["C18"] = dict(
 )
 
 META["C19"] = dict(
-    level_text="Theorems (Lean): dominance by node deletion is equivalent to 'every root path passes through d'; the executable definitional specs idomSpec/dfSpec are what the property states. Correspondence: IDom, Dom and DomFrontier of the real code equal the definitional specs exactly (frontier as sets, with the root proviso) on exhaustive small digraphs and random reducible/irreducible graphs with unreachable parts; panics and time-outs are failures.",
-    level_note="Trusted: Lean kernel; harness generators (sampling). The Cooper-Harvey-Kennedy iteration has no Lean mirror: the algorithm is tied to the proved spec only by the correspondence (outputs validated per input).",
-    technique="Lean 4 definitional spec with characterisation theorems + exact differential correspondence",
+    level_text="Theorems (Lean): dominance by node deletion is equivalent to 'every root path passes through d'; the executable definitional specs idomSpec/dfSpec are what the property states; the Lean mirrors of the Cooper-Harvey-Kennedy fixpoint iteration and of the frontier walk compute exactly those specs for every graph and root (idomCHK_eq_spec, domFrontierCHK_spec). Correspondence: IDom, Dom and DomFrontier of the real code equal the definitional specs exactly (frontier as sets, with the root proviso) on exhaustive small digraphs and random reducible/irreducible graphs with unreachable parts; panics and time-outs are failures.",
+    level_note="Trusted: Lean kernel; harness generators (sampling). The Cooper-Harvey-Kennedy iteration and the frontier walk have Lean mirrors proved equal to the definitional specs for every graph (C19CHK.idomCHK_eq_spec, domFrontierCHK_spec); Go's output is compared with spec and mirror.",
+    technique="Lean 4 definitional spec with characterisation theorems and a proved mirror of the Cooper-Harvey-Kennedy algorithm + exact differential correspondence",
     rule="ops idom/df/dom on all digraphs with self-loops on <=3 nodes and every root (thorough: <=4 nodes, plus a 1/6 sample of 5-node loop-free digraphs; quick adds a 1/40 sample of 4-node graphs), random graphs 2..40 nodes: uniform multigraphs at 5 densities, structured flow graphs (reducible / with irreducible edges / with unreachable nodes feeding reachable joins), ids permuted. non-trivial = >=3 nodes (df: some non-empty frontier)",
     exhaustive_part="all digraphs with self-loops on <=3 (thorough <=4) nodes, every root",
     trusted_base=COMMON_TB,
@@ -162,7 +162,7 @@ META["C07"] = dict(
 
 META["C15"] = dict(
     level_text="Theorems (Lean): if the normal equations X^T W X b = X^T W y hold with w>=0 then for every b', SSE(b') - SSE(b) = (b'-b)^T X^T W X (b'-b) >= 0 and the weighted residual is orthogonal to every basis function, so a validated exact solve is a minimiser; the evaluation loop of F computes sum c_i x^i; tricube weights vanish at the window radius; the window start found by the search predicate selects q consecutive points that are nearest to the query. Correspondence: LinearLeastSquares, PolynomialRegression (coefficients and F) and LOESS of the real code against exact rational solves (validated by A b = rhs on every case) within a tolerance scaled by the exact condition number; orthogonality and no-descent evaluated on the code's own coefficients; LOESS locality, order independence, history independence of the returned closure and unmodified inputs checked bit for bit.",
-    level_note="Trusted: Lean kernel, harness sampling. The Gauss-Jordan solve is validated per input, not proved. gonum's solver and math.Pow are not modelled; designs with kappa_inf(X^T W X) > 1e10 are skipped (counted).",
+    level_note="Trusted: Lean kernel, harness sampling. The model's Gauss-Jordan solve is proved sound (solve_sound) and also validated per input. gonum's solver and math.Pow are not modelled; designs with kappa_inf(X^T W X) > 1e10 are skipped (counted).",
     technique="Lean 4 proofs (normal equations imply minimiser) + exact rational differential correspondence with condition-number-scaled tolerance",
     rule="lls xs ys ws X (1..4 smooth basis functions from {1,x,sin,cos,exp,1/(1+x^2),x^2,tanh 2x} evaluated by the harness and transmitted), preg xs ys ws degree evalpoints (degree 0..6, data from a polynomial of degree <= d, optionally noisy), loess xs ys degree span queries (degree 0..2, span in (0,1], sorted and shuffled input, queries at the ends, at data points and inside). 3..40 distinct x in [-2,2] (or rescaled/offset), optional positive weights. non-trivial = every case not skipped",
     exhaustive_part="",
@@ -184,7 +184,7 @@ META["C12"] = dict(
 
 META["C04"] = dict(
     level_text="Theorems (Lean): the model statistics are the textbook expressions (pooled, Welch-Satterthwaite, paired, one-sample) with the library's error checks in the library's order; swapping the samples negates the numerator and keeps the denominator and DoF; shifting and positive scaling leave T^2, sign and DoF unchanged. Correspondence: N1, N2, sign(T), T^2, DoF and the error kind of the real code against the exact rational model (tolerance scaled by the cancellation factors of the data); P against the closed-form Student-t CDF at integer DoF (interval enclosure built from proved-sound atan/sqrt/pi) and, for Welch's non-integer DoF, against the library's own t CDF at (T,DoF) (wiring); MeanCI: mean, symmetry and t-content of the interval equal to c.",
-    level_note="Trusted: Lean kernel, harness sampling, MV.I enclosures and the closed-form t CDF at integer DoF (MV.Special.tCDF, numerically cross-checked; its derivation is textbook and not formalised). For Welch's test the accuracy of TDist.CDF at non-integer DoF is covered only by C05/C08's laws (partial).",
+    level_note="Trusted: Lean kernel, harness sampling, MV.I enclosures and the closed-form t CDF at integer DoF (MV.Special.tCDF, numerically cross-checked; its derivation is textbook and not formalised). Welch's non-integer DoF: P is compared with the general-parameter t CDF reference (Stirling lgamma + hypergeometric series of the incomplete beta function, MV.Special.tCDFgen), whose error terms are textbook bounds evaluated in interval arithmetic, not formalised.",
     technique="Lean 4 proofs of the statistic identities + exact rational differential correspondence with closed-form t reference",
     rule="tt pooled|welch|paired|one x1 x2 mu0 alt, meanci xs c. 2..40 values per sample (small sizes 1/5; sizes 0/1 1/25 for the error cases), centres {0,1,100,-5000,1e5,999990}, spreads 2^-4..2^4, unequal variances, zero-variance samples, mismatched paired lengths, mu0 near and far, all three alternatives; swapped and shifted/scaled variants; a short paired test right after a long one; MeanCI at c in {0,1,-0.5,1.5,.5,.9,.95,.99,1e-6,1-1e-9,random}. non-trivial = every case not skipped",
     exhaustive_part="",
@@ -194,7 +194,7 @@ META["C04"] = dict(
 
 META["C05"] = dict(
     level_text="Theorems (Lean): the interval enclosures of the normal density and CDF are sound for every rational argument (MV.Proofs.Interval: phi_sound, Phi_sound, where Phi is defined as the Gaussian integral), so every NormalDist PDF/CDF value and every InvCDF round trip is decided against a certified reference (relative 1e-9 down to p=1e-300 through the enveloping tail series); DeltaDist is exact. Student t: PDF and CDF against closed forms at integer V (1..400), and the laws (range, monotone, symmetry, limits, non-negative density) for every real V in [0.1,1e4] evaluated on the code's outputs.",
-    level_note="Partial: absolute accuracy of TDist.CDF/PDF at non-integer V is not decided (no certified reference yet); the closed forms at integer V are textbook and numerically cross-checked, not formalised. ",
+    level_note="Partial: the normal distribution is decided against proved enclosures. TDist at integer V uses closed forms, at other V the general reference (Stirling series for lgamma with its enveloping remainder, Gauss hypergeometric series for the incomplete beta function with a geometric tail bound); these reference formulas and their remainder bounds are textbook, evaluated in the proved interval arithmetic, cross-checked against the closed forms wherever both apply (clause reference-consistency), but not themselves formalised in Lean.",
     technique="Lean 4 certified interval reference (normal) + closed-form reference (t at integer V) + laws on outputs",
     rule="nd mu sigma pdf|cdf|inv|misc x: mu in +-{0,1,100,1e6}, sigma log-uniform 1e-6..1e6 (standard normal 1/4), z up to +-40 incl. 0, +-7, 37; p in (0,1): uniform, 10^-U(0,300), 1-10^-U(0,15), the branch points 0.02425, ends and outside; td V grid xs: V integer 1..40, {1,2,3,100,170,171,300,342,343,344,399,400}, or log-uniform real in [0.1,1e4], symmetric ascending grids with |x| from 1e-7 to 40; dd T pdf|cdf|inv x around the atom. non-trivial = every case",
     exhaustive_part="",
@@ -203,7 +203,7 @@ META["C05"] = dict(
 )
 META["C08"] = dict(
     level_text="Theorems (Lean): chooseFast = Nat.choose; the integer-parameter incomplete beta model is a polynomial in x with value 0 at 0 and 1 at 1; symmetry and complement identities on the slices. Correspondence: BetaInc against exact rational values at integer (a,b) and against the t-distribution closed form at (k/2,1/2) and (1/2,k/2); GammaInc/GammaIncComp against enclosures at integer and half-integer a; Choose (exact for n<=20, 1e-10 relative to 1000), Lchoose, Beta at integers, Sign; and for real parameters across the whole stated range the laws evaluated on the code's outputs: range, monotone in x on ascending dyadic grids, complement identity I_x(a,b)+I_(1-x)(b,a)=1 (1-x exact), 0/1 at the ends, NaN outside, P+Q=1; panics and non-convergence are failures.",
-    level_note="Partial: 1e-9 accuracy of BetaInc/GammaInc at non-integer, non-half-integer parameters is not decided by a certified reference (laws only). Closed forms on the slices are textbook identities, numerically cross-checked, not formalised.",
+    level_note="Partial: integer-parameter references are proved (betaIncR_eq_integral, gammaIncInt_sound, lchoose_sound). Elsewhere the reference is the general one (Stirling lgamma with enveloping remainder; hypergeometric / power series with geometric tail bound; one integration by parts for the far upper tail of GammaInc), evaluated in proved interval arithmetic and cross-checked against the proved closed forms on the slices (clause reference-consistency); the series identities and remainder bounds themselves are textbook and not formalised.",
     technique="Lean 4 exact/closed-form references on rational slices + identities evaluated on outputs",
     rule="mx betagrid a b xs (a,b log-uniform in [0.05,300]; integers to 300; (k/2,1/2) slices; corners; x dyadic, ascending, incl. 0, 1, the mean a/(a+b), the branch switch (a+1)/(a+b+2) and its neighbours, 10^-U(0,12), 1-10^-U(0,12)); mx gammagrid a xs (a real / integer / half-integer; x at 0, a, a+1 and neighbours, lognormal around a, tiny, 1000; NaN cases); mx choose n k (all n<=70 quick / n<=1000 thorough with sampling above 60, out-of-range k); mx beta a b; mx sign x. non-trivial = every case",
     exhaustive_part="Choose/Lchoose: all (n,k) with n<=70 (thorough: n<=60 all, 1/4 sample to 1000)",
@@ -248,7 +248,7 @@ def _race_post(prop, tier, seed, work, goenv, repo, build_harness):
 
 META["C20"] = dict(
     level_text="Theorems (Lean): in the heap-machine model only the documented in-place operations write, and only their receiver; outputs depend only on the named arguments (repeatability); any interleaving of non-mutating calls yields, call for call, the sequential outputs. Correspondence: for random programs over shared objects (unsorted data with ties; a Sample aliasing a slice) every real call's observed write set is compared with the model's documented write set, every non-mutating call is repeated after the others and replayed from 16 goroutines with bitwise comparison, and the same programs run in a binary built with -race: every race report is a violation.",
-    level_note="Partial: data-race freedom is a property of the Go memory model and scheduler that the Lean model cannot exhibit; it is observed by the race detector on the schedules that occur, not proved. The theorems are true of the model by construction; the content is in the correspondence. API coverage = the op table of harness/c20.go (63 entry points).",
+    level_note="Partial: data-race freedom is a property of the Go memory model and scheduler that the Lean model cannot exhibit; it is observed by the race detector on the schedules that occur, not proved. The theorems are true of the model by construction; the content is in the correspondence. API coverage = the op table of harness/c20.go (64 entry points); half of each program's calls dwell on a few entry points so that call-history dependence (memo tables, retained buffers) shows as a difference between first run, repeat and permuted concurrent replay.",
     technique="Lean 4 frame/determinism theorems on a heap machine + write-set correspondence, bitwise replay and race-detector runs",
     rule="pure objs prefix block: 17 shared objects per program (slices, Samples incl. weighted and one aliasing a slice, graphs, KDE with zero or set Bandwidth, StreamStats, LinearHist, NodeMarks, Linear/Log scales, int slice, UDist) with unsorted, tie-rich data; a prefix of 4..14 random API calls incl. the documented mutators (frame checked per call), then a block of 12..40 non-mutating calls executed, repeated in shuffled order and replayed by 16 goroutines; first 150 programs (thorough 3000) also under -race. non-trivial = every program",
     exhaustive_part="",
